@@ -34,7 +34,7 @@ m = {
  "hooks": {
    "guard": "verif",
    "enable": "checks build /repo through the harness module (replace mellium.im/xmpp => /repo) with -tags verif; concurrency instrumentation is generated at check time as a go build -overlay, not committed to /repo",
-   "baseline_off_cmd": "cd /repo && GOFLAGS=-mod=mod GOPROXY=off GOSUMDB=off GOTOOLCHAIN=local go test -vet=off -count=1 ./... && cd examples && GOFLAGS=-mod=mod GOPROXY=off GOSUMDB=off GOTOOLCHAIN=local go test -vet=off -count=1 ./...",
+   "baseline_off_cmd": "cd /repo && GOFLAGS=-mod=mod GOPROXY=off GOSUMDB=off GOTOOLCHAIN=local go test -vet=off -count=1 ./...",
    "source_commits": [],
    "add_only": True,
  },
